@@ -270,7 +270,17 @@ def _convert_load(
 def _convert_store(
     op: llvm.StoreOp, builder: ir.IRBuilder, val_map: dict[SSAValue, ir.Value]
 ):
-    store_instr = builder.store(val_map[op.value], val_map[op.ptr])
+    value = val_map[op.value]
+    ptr = val_map[op.ptr]
+    # llvmlite still hands out typed pointers for alloca/getelementptr results; the
+    # llvm dialect's pointers are opaque, so any value type may be stored through them.
+    if (
+        isinstance(ptr.type, ir.PointerType)
+        and not ptr.type.is_opaque
+        and ptr.type.pointee != value.type
+    ):
+        ptr = builder.bitcast(ptr, value.type.as_pointer(ptr.type.addrspace))
+    store_instr = builder.store(value, ptr)
     if op.alignment:
         store_instr.align = op.alignment.value.data
 
